@@ -27,6 +27,12 @@ def run(ctx):
                {"op": "mv", "src": "Card/Clips/sub" if deep else "Card/Clips", "dst": "Card/Clips/takes" if deep else "Card/Takes"},
                {"op": "create", "at": "", "h": ["md5"], "now": "2026-03-01 12:00:04", "dr": True}, {"op": "verify", "at": ""}]
         scs.insert(0, {"profile": "c08-renamed-below", "impl_only": True, "root": "root", "tree": tree, "ops": ops})
+    # -sf names a file of a nested history whose folder a recorded pattern of the enclosing history ignores: the named file
+    # is sealed where it belongs, and the histories on the way get their generations
+    scs.insert(0, {"profile": "c08-sf-into-ignored", "root": "root", "tree": {"B/BB/y.txt": "y", "B/BB/z.txt": "z", "B/x.txt": "x", "t.txt": "t"},
+                   "ops": [{"op": "create", "at": "B/BB", "h": ["md5"], "now": "2026-03-01 12:00:01"}, {"op": "create", "at": "B", "h": ["md5"], "now": "2026-03-01 12:00:02"},
+                           {"op": "create", "at": "", "h": ["md5"], "now": "2026-03-01 12:00:03", "i": ["BB"]}, {"op": "create", "at": "", "h": ["md5"], "now": "2026-03-01 12:00:04", "sf": ["B/BB/y.txt"]},
+                           {"op": "info", "at": ""}]})
     # -sf naming files of sibling histories that have the same path relative to their own history root
     for sf in (["Cards/A001/index.xml", "Cards/A002/index.xml"], ["Cards/A001/index.xml", "Cards/A002/index.xml", "index.xml", "Cards/A001/index.xml"], ["Cards"]):
         tree = {"Cards/A001/index.xml": "one", "Cards/A002/index.xml": "two", "Cards/A002/clip.mov": "c", "index.xml": "top", "Cards/index.xml": "mid"}
